@@ -87,13 +87,21 @@ def normalization_rules(repo, res):
     for m in ('normalize', 'unnormalize'):
         f = repo.get_function(f'{PB}.{m}')
         sd = seeds(f)
-        if 'profile' not in sd or 'profile_error' not in sd:
+        if 'profile' not in sd and 'profile_error' not in sd:
             raise AnalysisError(f'{PB}.{m}: seeds of profile/profile_error not found')
+        if 'profile' not in sd or 'profile_error' not in sd:
+            miss = 'profile' if 'profile' not in sd else 'profile_error'
+            res.oblige('MIRROR', f'{m}: both profile and profile_error are rescaled', False, nontrivial=True)
+            res.add(Finding('MIRROR', f.fullname, f'{miss} not rescaled', f.loc,
+                            f'ProfileBase.{m} rescales only one of profile / profile_error (`{miss}` is not re-seeded)', {}))
+            continue
         SP.mirror_stmts(res, 'MIRROR', f, sd['profile'], sd['profile_error'], {'profile': 'profile_error'},
                         'profile and profile_error must be rescaled by the same factor')
     # unnormalize multiplies by the accumulated value and resets it to 1
     f = repo.get_function(f'{PB}.unnormalize')
     sd = seeds(f)
+    if 'profile' not in sd:
+        return
     got = nf(sd['profile'].value)
     ok = got == nf_text('self.profile * self.normalization_value')
     res.oblige('SPEC', 'unnormalize multiplies by the accumulated normalization_value', ok, nontrivial=True,
